@@ -14,12 +14,10 @@ git -C /repo worktree add -q --detach "$WT/repo" HEAD
 mkdir -p "$WT/repo/target"
 suite=$(cd "$WT/repo" && CARGO_TARGET_DIR="$WT/target" cargo test --workspace --no-fail-fast --offline 2>&1 | grep -E "^test result" | tr '\n' ' ')
 echo "SUITE: $suite" > "$OUT/checks.log"
-RES=""
-for pid in $(python3 -c "import json; print(' '.join(c['property_id'] for c in json.load(open('$VH/MANIFEST.json'))['checks']))"); do
-  o=$(VERIF_REPO="$WT/repo" VERIF_SCRATCH="$WT/scratch" $VH/check $pid 2>&1); rc=$?
-  echo "=== check $pid exit=$rc" >> "$OUT/checks.log"; echo "$o" | grep -E "^(VIOLATION|UNDECIDED|property)" | cut -c1-260 >> "$OUT/checks.log"
-  RES="$RES $pid:$rc"
-done
+PIDS=$(python3 -c "import json; print(','.join(c['property_id'] for c in json.load(open('$VH/MANIFEST.json'))['checks']))")
+o=$(VERIF_REPO="$WT/repo" VERIF_SCRATCH="$WT/scratch" $VH/check $PIDS 2>&1); rc=$?
+echo "$o" | grep -E "^(VIOLATION|UNDECIDED|property|exit)" | cut -c1-260 >> "$OUT/checks.log"
+RES=" worst_exit=$rc $(echo "$o" | grep -E '^exit ' | awk '{printf "%s:%s ", $2, $4}')"
 git -C /repo worktree remove --force "$WT/repo" >/dev/null 2>&1; rm -rf "$WT"
 echo "RESULT $ID$RES" >> "$OUT/checks.log"
 echo "RESULT $ID$RES"
